@@ -13,9 +13,11 @@ NOTE = ('trusted: A-real (floats as reals), the executable library contracts of 
 CLAIMED = {
     'C01': ('other', 'Per layer: producer -> [causal pad] -> searchable PIT layer is exported (real export code in a minimal fx graph) and the exported chain is '
             'proved equal to the masked chain on every input for every reachable mask pattern, all real weights / BatchNorm statistics / mask parameters; '
-            'kernel sizes, dilations, strides, BatchNorm modes enumerated. Composition over whole architectures is not decided.', '3 C01'),
+            'kernel sizes, dilations, strides, BatchNorm modes enumerated. Whole-model export equivalence through the real convert() pipeline on six enumerated architectures '
+            '(bounded in topology); composition over all architectures is not decided.', '3 C01, 0-bis.7'),
     'C02': ('other', 'Per layer, per-layer search (as the statement restricts): eval-mode forward of MPSConv2d/Conv1d/Linear/Identity == forward of the Quant* layer '
-            'export() builds, on every input; exported precisions == summary(); trained quantizer objects re-used. Wiring across layers not decided.', '3 C02'),
+            'export() builds, on every input; exported precisions == summary(); trained quantizer objects re-used. Wiring across layers: real MPS convert() on two enumerated '
+            'architectures, every combination of selected precisions, concrete weights (bounded).', '3 C02, 0-bis.7'),
     'C03': ('other', 'Bounded in topology (never counted as a proof over all SuperNets): the real export_graph / link_combiners_to_branches run on torch.fx graphs of '
             'enumerated topologies (1..3 choice blocks of 2..3 and 12 branches: single layer, two-layer sequence, identity; a block invoked twice) with symbolic '
             'selection coefficients, weights and inputs; exported graph == hard-selection graph on every input, exactly the arg-max branches and the fixed layers '
@@ -27,11 +29,12 @@ CLAIMED = {
     'C06': ('other', 'SuperNet cost == coefficient-weighted mix of branch costs per invocation (+ fixed layers), between min and max for every probability vector and '
             'for the real sampler on any raw coefficients, == selected branch under one-hot. Export clause not decided (fx).', '3 C06'),
     'C07': ('other', 'BatchNorm fusing / folding algebra of remove_bn_inplace and fuse_bn_inplace for all bias/affine combinations, weight copy, open-mask forward '
-            'identity, user objects untouched, mode restoration by PIT.__init__. Whole-model clauses not decided.', '3 C07'),
+            'identity, user objects untouched, mode restoration. Whole-model clauses (PIT / SuperNet / MPS constructors through the real convert()) on enumerated architectures only.', '3 C07, 0-bis.7'),
     'C08': ('proof', 'For ALL real architectural parameters every PIT layer keeps >= 1 feature, >= 1 tap, dilation >= 1; frozen maskers keep full size; exported sizes == '
             'summary(); export is defined. Kernel sizes 1..9 (quick) / 1..16, dilations, strides, widths enumerated. Which groups are frozen (graph pass) is a hypothesis.', '3 C08'),
     'C09': ('other', 'Contracts of the four features calculators (sum over concat of searchable / fixed inputs, flatten multiplier and mask expansion, propagation), '
-            'their discrete consistency, the frame of register(), and the channel-axis test of is_features_concatenate. The BFS over DAGs is not decided.', '3 C09'),
+            'their discrete consistency, the frame of register(), the channel-axis test of is_features_concatenate; the BFS that wires them runs from source on six enumerated '
+            'architectures (bounded in topology), not over all DAGs.', '3 C09, 0-bis.7'),
     'C10': ('other', 'Post-conditions of the real samplers and selectors for all coefficient vectors without ties and temperatures in [0.05,20], from an arbitrary '
             'previous state (induction over histories of option updates / forward passes); lengths 1..4 enumerated. One known finding (SuperNet eval-mode soft sampling).', '3 C10'),
     'C11': ('proof', 'Exact-effect post-conditions of train_nas_only/train_net_only/train_net_and_nas, the PIT train_features/rf/dilation and '
